@@ -20,6 +20,10 @@ CLAIMED = {
             "Seeded search over flow histories and schedules: a real Sender (client side and listener side) runs against a scripted receiver that grants, reduces, drains and echoes credit in seeded steps; initial delivery-counts include values near 2^31 and 2^32. The wire monitor checks that every delivery started under a grant the receiver had made (serial arithmetic, one credit per delivery however many frames; strict after simulator-proven quiescence), drain requests must be answered with zero credit and the delivery-count at the limit, and after a final sufficient grant the peer goes silent and every send must complete within a virtual deadline. Schedule point H2 makes the multi-thread window between the failed credit check and the start of the wait an explorable choice.",
             "Trusted: the simulator, refcodec, tokio's paused clock. H2 is the only intra-poll preemption point explored. In-flight rule for credit as for windows.",
             "credit reference model on the wire + 'granted => completes with the peer silent' under schedule point H2", "3 C08"),
+    "C09": ("exploration",
+            "Seeded search over credit policies, disposal orders and sender behaviours: a real Receiver (client side and listener side) runs against a scripted sender that stays within credit, goes exactly to the limit or overruns it, in single- and multi-frame deliveries, and occasionally restates its delivery-count. Every flow the receiver writes is checked against the delivery-count last learnt from the sender plus the deliveries completed since (feasible prefix while traffic flows, exact at quiescence) and against the credit the application asked for; a delivery beyond the issued credit must surface as the transfer-limit error and never as a delivery; with automatic credit and an application that disposes of what it receives a stream of 3n+7 deliveries must complete within a virtual deadline.",
+            "Trusted: the simulator, refcodec, tokio's paused clock. Replenishment is only demanded when the application disposes of every delivery (the code replenishes on disposal).",
+            "delivery-count/credit reference model, overrun => error not delivery, long-stream bounded liveness against a scripted sender", "3 C09"),
 }
 
 NOT_APPLICABLE = {
